@@ -305,8 +305,8 @@ def evalTerm (env : Env) : Term → Outcome Nat
     if y = 0 then .panic "integer divide by zero" else .ok (x % y)
 
 def evalCond (env : Env) : Cond → Outcome Bool
-  | .ne a b => do let x ← evalTerm env a; let y ← evalTerm env b; pure (x != y)
-  | .eq a b => do let x ← evalTerm env a; let y ← evalTerm env b; pure (x == y)
+  | .ne a b => do let x ← evalTerm env a; let y ← evalTerm env b; pure (decide (x ≠ y))
+  | .eq a b => do let x ← evalTerm env a; let y ← evalTerm env b; pure (decide (x = y))
   | .lt a b => do let x ← evalTerm env a; let y ← evalTerm env b; pure (decide (x < y))
 
 /-- Run a guard prefix: the first failing step decides the error. -/
@@ -370,12 +370,9 @@ def encryptAEAD (a : AEAD) (pt nonce ad : Bytes) : Outcome (Bytes × Bytes) :=
   | .err e => .err e
   | .panic w => .panic w
   | .ok () =>
-    match a.doSeal nonce pt ad with
-    | .ok out =>
+    (a.doSeal nonce pt ad).bind fun out =>
       if out.length < a.overhead then .panic "slice bounds out of range"
       else .ok (out.take (out.length - a.overhead), out.drop (out.length - a.overhead))
-    | .err e => .err e
-    | .panic w => .panic w
 
 /-- `decryptSymmetricAEAD`: nonce guard, tag guard, re-join, `Open`. -/
 def decryptAEAD (a : AEAD) (ct nonce tag ad : Bytes) : Outcome Bytes :=
@@ -388,10 +385,7 @@ def decryptAEAD (a : AEAD) (ct nonce tag ad : Bytes) : Outcome Bytes :=
   | .ok () => a.doOpen nonce (ct ++ tag) ad
 
 def stepsThen {α} (env : Env) (steps : List Step) (k : Unit → Outcome α) : Outcome α :=
-  match runSteps env steps with
-  | .err e => .err e
-  | .panic w => .panic w
-  | .ok () => k ()
+  (runSteps env steps).bind k
 
 def encryptSymmetricAESCBC (P : Prims) (pt : Bytes) (alg : String) (key iv : Bytes) :
     Outcome (Bytes × Bytes) :=
@@ -401,19 +395,9 @@ def encryptSymmetricAESCBC (P : Prims) (pt : Bytes) (alg : String) (key iv : Byt
     tryCall := fun c => if c = "aes.NewCipher" then aesNewCipherErr key else some "model: unknown callee" }
   stepsThen env Generated.C03.steps_encryptSymmetricAESCBC fun _ =>
     if Generated.C03.nopad_encryptSymmetricAESCBC.contains alg then
-      match cbcEncrypt (P.aes key) iv pt with
-      | .ok ct => .ok (ct, [])
-      | .err e => .err e
-      | .panic w => .panic w
+      (cbcEncrypt (P.aes key) iv pt).bind fun ct => .ok (ct, [])
     else
-      match pad pt 16 with
-      | .ok padded =>
-        match cbcEncrypt (P.aes key) iv padded with
-        | .ok ct => .ok (ct, [])
-        | .err e => .err e
-        | .panic w => .panic w
-      | .err e => .err e
-      | .panic w => .panic w
+      (pad pt 16).bind fun padded => (cbcEncrypt (P.aes key) iv padded).bind fun ct => .ok (ct, [])
 
 def decryptSymmetricAESCBC (P : Prims) (ct : Bytes) (alg : String) (key iv : Bytes) : Outcome Bytes :=
   let env : Env := {
@@ -421,11 +405,8 @@ def decryptSymmetricAESCBC (P : Prims) (ct : Bytes) (alg : String) (key iv : Byt
     len := lensOf [("key", key.length), ("iv", iv.length), ("ciphertext", ct.length)]
     tryCall := fun c => if c = "aes.NewCipher" then aesNewCipherErr key else some "model: unknown callee" }
   stepsThen env Generated.C03.steps_decryptSymmetricAESCBC fun _ =>
-    match cbcDecrypt (P.aes key) iv ct with
-    | .ok pt =>
+    (cbcDecrypt (P.aes key) iv ct).bind fun pt =>
       if Generated.C03.nopad_decryptSymmetricAESCBC.contains alg then .ok pt else unpad pt 16
-    | .err e => .err e
-    | .panic w => .panic w
 
 def gcmTry (key : Bytes) (c : String) : Option String :=
   if c = "aes.NewCipher" then aesNewCipherErr key
@@ -470,10 +451,7 @@ def encryptSymmetricAESKW (P : Prims) (pt : Bytes) (alg : String) (key : Bytes) 
     Outcome (Bytes × Bytes) :=
   let env : Env := { alg := alg, len := lensOf [("key", key.length)], tryCall := kwTry key }
   stepsThen env Generated.C03.steps_encryptSymmetricAESKW fun _ =>
-    match wrap (P.aes key) pt with
-    | .ok c => .ok (c, [])
-    | .err e => .err e
-    | .panic w => .panic w
+    (wrap (P.aes key) pt).bind fun c => .ok (c, [])
 
 def decryptSymmetricAESKW (P : Prims) (ct : Bytes) (alg : String) (key : Bytes) : Outcome Bytes :=
   let env : Env := { alg := alg, len := lensOf [("key", key.length)], tryCall := kwTry key }
@@ -495,13 +473,10 @@ def encryptSymmetricChaCha20Poly1305 (P : Prims) (pt : Bytes) (alg : String) (ke
     match getChaChaCipher alg key nonce with
     | .error e => .err e
     | .ok c =>
-      match (chachaAEAD P c key).doSeal nonce pt ad with
-      | .ok out =>
-        let k := Generated.C03.chachaEncryptTagSplit
-        if out.length < k then .panic "slice bounds out of range"
-        else .ok (out.take (out.length - k), out.drop (out.length - k))
-      | .err e => .err e
-      | .panic w => .panic w
+      ((chachaAEAD P c key).doSeal nonce pt ad).bind fun out =>
+        if out.length < Generated.C03.chachaEncryptTagSplit then .panic "slice bounds out of range"
+        else .ok (out.take (out.length - Generated.C03.chachaEncryptTagSplit),
+                  out.drop (out.length - Generated.C03.chachaEncryptTagSplit))
 
 def decryptSymmetricChaCha20Poly1305 (P : Prims) (ct : Bytes) (alg : String)
     (key nonce tag ad : Bytes) : Outcome Bytes :=
